@@ -141,60 +141,111 @@ Print Assumptions C14_isfinite_exact.
 
 (* T2, forward direction: the mirror model of the explicit stack machine of DFA.successors
    (Model/SuccMachine.v: state stack, char stack, candidate, should_yield; the yield point, the
-   descend / next-sibling / return-to-parent branches, pruning by co-accessibility and max_length)
+   descend / next-sibling / return-to-parent branches, pruning by co-accessibility and max_length,
+   next_symbol with its branch for symbols outside the alphabet, the empty-alphabet guard)
    generates exactly the specified list: whatever the fuel, it never returns anything else, and with
-   the budget the driver uses (machine_fuel, or anything larger) it does return - no KeyError, no
-   IndexError, no endless loop.  Hypotheses: the start word is over the alphabet (a foreign symbol is
-   the open finding successor_start_has_foreign_symbol), the alphabet is not empty (open finding
-   successor_empty_alphabet), and max_length is given whenever the language is infinite (the code
-   does not terminate otherwise; succ_m answers Err Infinite there). *)
+   the budget the driver uses (machine_fuel, or anything larger) it does return.
+   Hypotheses: max_length is given whenever the language is infinite (the code does not terminate
+   otherwise; succ_m answers Err Infinite there), and no symbol of the start word lies BELOW every
+   symbol of the alphabet.  Symbols of the start word outside the alphabet are otherwise allowed
+   (between or above the alphabet's), and so is the empty alphabet (the hypothesis is then empty
+   only for start words None and ""; for other start words see C14_machine_total_noerror and the
+   reverse direction).  The last hypothesis cannot be dropped - see C14_foreign_below_counterexample. *)
 Theorem C14_machine_refines_successors : forall m start strict lo ohi,
   valid_dfa m = true ->
   (ohi = None -> finite_lang (L_dfa m)) ->
-  (forall s, start = Some s -> Forall (fun a => In a (d_syms m)) s) ->
+  (forall s, start = Some s -> Forall (fun a => exists y, In y (d_syms m) /\ y <= a) s) ->
   (forall fuel l, succ_machine fuel m start strict false lo ohi = Ok l ->
                   l = succ_list m start strict lo (the_hi m ohi)) /\
-  (d_syms m <> [] -> forall fuel, machine_fuel m start ohi <= fuel ->
+  (forall fuel, machine_fuel m start ohi <= fuel ->
      succ_machine fuel m start strict false lo ohi = Ok (succ_list m start strict lo (the_hi m ohi))).
 Proof.
   intros m start strict lo ohi Hv Hfin Hstart. split.
   - intros fuel l. exact (machine_forward_correct fuel m start strict lo ohi l Hv Hfin Hstart).
-  - intros Hne fuel Hf. exact (machine_forward_total fuel m start strict lo ohi Hv Hfin Hstart Hne Hf).
+  - intros fuel Hf. exact (machine_forward_total fuel m start strict lo ohi Hv Hfin Hstart Hf).
 Qed.
 Print Assumptions C14_machine_refines_successors.
 
+(* over the empty alphabet the forward direction needs no hypothesis on the start word at all *)
+Theorem C14_machine_empty_alphabet : forall fuel m start strict reverse lo ohi,
+  valid_dfa m = true -> d_syms m = [] ->
+  succ_machine fuel m start strict reverse lo ohi =
+    Ok (if reverse then pred_list m start strict lo (the_hi m ohi)
+        else succ_list m start strict lo (the_hi m ohi)).
+Proof.
+  intros fuel m start strict reverse lo ohi Hv He.
+  assert (Efin : finite_lang (L_dfa m)).
+  { exists 0. intros w Hw. pose proof (acc_syms m Hv w Hw) as Hf. rewrite He in Hf.
+    destruct w as [|a w]; [apply le_n|]. inversion Hf as [|? ? Ha _]. destruct Ha. }
+  assert (Es : set_of (d_syms m) = []) by (rewrite He; reflexivity).
+  unfold succ_machine. destruct (finite_isfinite m Hv Efin) as [E1 _].
+  destruct (coreach_states_ok m Hv) as [co [Eco _]].
+  destruct reverse; [rewrite E1|]; simpl; rewrite Eco; simpl; unfold machine_syms; rewrite Es; simpl; f_equal.
+  - apply empty_guard_pred. exact Es.
+  - apply empty_guard_succ. exact Es.
+Qed.
+Print Assumptions C14_machine_empty_alphabet.
+
 (* T2, reverse direction (predecessors = successors(reverse=True), with the row-8 repair): post-order
-   over the descending alphabet, the empty word generated after the loop; same budget *)
+   over the descending alphabet, the empty word generated after the loop; same budget.  NO hypothesis
+   on the start word (any symbols, inside or outside the alphabet) and none on the alphabet. *)
 Theorem C14_machine_refines_predecessors : forall m start strict lo ohi,
   valid_dfa m = true ->
   finite_lang (L_dfa m) ->
-  (forall s, start = Some s -> Forall (fun a => In a (d_syms m)) s) ->
   (forall fuel l, succ_machine fuel m start strict true lo ohi = Ok l ->
                   l = pred_list m start strict lo (the_hi m ohi)) /\
-  (d_syms m <> [] -> forall fuel, machine_fuel m start ohi <= fuel ->
+  (forall fuel, machine_fuel m start ohi <= fuel ->
      succ_machine fuel m start strict true lo ohi = Ok (pred_list m start strict lo (the_hi m ohi))).
 Proof.
-  intros m start strict lo ohi Hv Hfin Hstart. split.
-  - intros fuel l. exact (machine_reverse_correct fuel m start strict lo ohi l Hv Hfin Hstart).
-  - intros Hne fuel Hf. exact (machine_reverse_total fuel m start strict lo ohi Hv Hfin Hstart Hne Hf).
+  intros m start strict lo ohi Hv Hfin. split.
+  - intros fuel l. exact (machine_reverse_correct fuel m start strict lo ohi l Hv Hfin).
+  - intros fuel Hf. exact (machine_reverse_total fuel m start strict lo ohi Hv Hfin Hf).
 Qed.
 Print Assumptions C14_machine_refines_predecessors.
 
-(* the statement that used to be open (C14_machine_total_statement), in one piece: with the driver's
-   budget the machine returns the specified list, in either direction *)
+(* termination and absence of errors need no hypothesis on the start word or the alphabet in either
+   direction: with the driver's budget the machine returns some list (no KeyError, no IndexError,
+   no endless loop) *)
+Theorem C14_machine_total_noerror : forall m start strict reverse lo ohi fuel, valid_dfa m = true ->
+  (reverse = true \/ ohi = None -> finite_lang (L_dfa m)) ->
+  machine_fuel m start ohi <= fuel ->
+  exists l, succ_machine fuel m start strict reverse lo ohi = Ok l.
+Proof.
+  intros m start strict reverse lo ohi fuel Hv Hfin Hf.
+  exact (machine_total fuel m start strict reverse lo ohi Hv Hfin Hf).
+Qed.
+Print Assumptions C14_machine_total_noerror.
+
+(* both directions in one piece *)
 Theorem C14_machine_total : forall m start strict reverse lo ohi, valid_dfa m = true ->
   (reverse = true \/ ohi = None -> finite_lang (L_dfa m)) ->
-  (forall s, start = Some s -> Forall (fun a => In a (d_syms m)) s) ->
-  d_syms m <> [] ->
+  (reverse = false -> forall s, start = Some s -> Forall (fun a => exists y, In y (d_syms m) /\ y <= a) s) ->
   succ_machine (machine_fuel m start ohi) m start strict reverse lo ohi =
     Ok (if reverse then pred_list m start strict lo (the_hi m ohi)
         else succ_list m start strict lo (the_hi m ohi)).
 Proof.
-  intros m start strict reverse lo ohi Hv Hfin Hstart Hne. destruct reverse.
+  intros m start strict reverse lo ohi Hv Hfin Hstart. destruct reverse.
   - apply machine_reverse_total; auto.
   - apply machine_forward_total; auto.
 Qed.
 Print Assumptions C14_machine_total.
+
+(* WHY the forward hypothesis stays: the code after e6d88f7 (mirrored by the model) is wrong when a
+   symbol of the start word lies below the whole alphabet.  Alphabet {1}, all words accepted,
+   start [0] ("a" against the alphabet {"b"}): popping 0 makes next_symbol return the first symbol, and
+   the pre-order yield test `candidate == first_symbol` fires again for the parent word [] - a proper
+   prefix of the start word, hence not a successor.  Open finding successor_foreign_symbol_below_alphabet. *)
+Definition ex_b : dfa := mkdfa [0] [1] [(0,[(1,0)])] 0 [0] false.
+Example C14_foreign_below_counterexample :
+  valid_dfa ex_b = true /\
+  succ_list ex_b (Some [0]) true 0 1 = [[1]] /\
+  succ_machine (machine_fuel ex_b (Some [0]) (Some 1)) ex_b (Some [0]) true false 0 (Some 1) = Ok [[]; [1]] /\
+  succ_list ex_b (Some [1;0]) true 0 1 = [] /\
+  succ_machine (machine_fuel ex_b (Some [1;0]) (Some 1)) ex_b (Some [1;0]) true false 0 (Some 1) = Ok [[1]] /\
+  (* the same symbol above the alphabet, and the reverse direction, are fine *)
+  succ_machine (machine_fuel ex_b (Some [2]) (Some 1)) ex_b (Some [2]) true false 0 (Some 1) = Ok [] /\
+  succ_list ex_b (Some [2]) true 0 1 = [].
+Proof. vm_compute. repeat split. Qed.
 
 (* the iteration count behind the budget: a traversal never needs more than (n+1) loop iterations per
    node of the trie of words of length <= hi over the n symbols, plus (n+1) per symbol of the start word *)
@@ -211,8 +262,13 @@ Definition ex_fin : dfa := mkdfa [0;1;2] [0;1] [(0,[(0,1);(1,2)]);(1,[(1,2)]);(2
 (* complete DFA over {0}: even number of 0s (infinite) *)
 Definition ex_inf : dfa := mkdfa [0;1] [0] [(0,[(0,1)]);(1,[(0,0)])] 0 [0] false.
 
+(* the alphabet {0,2} (code 1 is a character outside it): 0 -0-> 1, 0 -2-> 2, 1 -2-> 2; L = {e, 2, 02} *)
+Definition ex_gap : dfa := mkdfa [0;1;2] [0;2] [(0,[(0,1);(2,2)]);(1,[(2,2)]);(2,[])] 0 [0;2] true.
+(* the empty alphabet: L = {e} *)
+Definition ex_noalpha : dfa := mkdfa [0] [] [(0,[])] 0 [0] true.
+
 Example C14_example_lists :
-  valid_dfa ex_fin = true /\ valid_dfa ex_inf = true /\
+  valid_dfa ex_fin = true /\ valid_dfa ex_inf = true /\ valid_dfa ex_gap = true /\ valid_dfa ex_noalpha = true /\
   dict_order [0;1] 2 = [[]; [0]; [0;0]; [0;1]; [1]; [1;0]; [1;1]] /\
   succ_m ex_fin None true 0 None = Ok [[]; [0;1]; [1]] /\
   succ_m ex_fin (Some []) true 0 None = Ok [[0;1]; [1]] /\
@@ -234,7 +290,22 @@ Example C14_example_lists :
   succ_machine (machine_fuel ex_fin (Some [0]) None) ex_fin (Some [0]) true false 0 None = Ok [[0;1]; [1]] /\
   succ_machine (machine_fuel ex_inf (Some [0]) (Some 5)) ex_inf (Some [0]) false false 0 (Some 5) = Ok [[0;0]; [0;0;0;0]] /\
   succ_machine (machine_fuel ex_fin (Some [1]) None) ex_fin (Some [1]) true true 0 None = Ok [[0;1]; []] /\
-  succ_machine 5 ex_fin None true false 0 None = Err Fuel.
+  succ_machine 5 ex_fin None true false 0 None = Err Fuel /\
+  (* start words with symbols outside the alphabet {0,1}: 7 above it; and over the alphabet {0,2} one between *)
+  succ_machine (machine_fuel ex_fin (Some [0;0;7]) None) ex_fin (Some [0;0;7]) false false 1 None = Ok [[0;1]; [1]] /\
+  succ_machine (machine_fuel ex_fin (Some [0;7]) None) ex_fin (Some [0;7]) true true 0 None = Ok [[0;1]; []] /\
+  pred_m ex_fin (Some [0;7]) true 0 None = Ok [[0;1]; []] /\
+  succ_machine (machine_fuel ex_gap (Some [0;1]) None) ex_gap (Some [0;1]) true false 0 None = Ok [[0;2]; [2]] /\
+  succ_m ex_gap (Some [0;1]) true 0 None = Ok [[0;2]; [2]] /\
+  succ_machine (machine_fuel ex_gap (Some [1]) None) ex_gap (Some [1]) true true 0 None = Ok [[0;2]; []] /\
+  pred_m ex_gap (Some [1]) true 0 None = Ok [[0;2]; []] /\
+  (* the empty alphabet *)
+  succ_machine 0 ex_noalpha None true false 0 None = Ok [[]] /\ succ_m ex_noalpha None true 0 None = Ok [[]] /\
+  succ_machine 0 ex_noalpha (Some []) true false 0 None = Ok [] /\
+  succ_machine 0 ex_noalpha (Some []) false true 0 None = Ok [[]] /\
+  succ_machine 0 ex_noalpha (Some [3]) true true 0 None = Ok [[]] /\ pred_m ex_noalpha (Some [3]) true 0 None = Ok [[]] /\
+  succ_machine 0 ex_noalpha (Some [3]) false false 0 None = Ok [] /\
+  succ_machine 0 ex_noalpha None true false 1 None = Ok [].
 Proof. vm_compute. repeat split. Qed.
 
 Example C14_example_hypotheses : finite_lang (L_dfa ex_fin) /\ infinite_lang (L_dfa ex_inf).
